@@ -44,51 +44,107 @@ CHECKS = {
 }
 
 
-WORLD_NOTE = ("The World model (coq/Model/World.v) is a hand transcription of the ownership code; its invariants are stated in coq/Proofs/InvDefs.v. ")
-_INTERIM = "INTERIM LEVEL: the invariant proofs for the World model are being written; until Props/%s.v holds the full theorems this check decides the property by differential execution of the extracted Coq model against the working tree plus a direct fresh-scan oracle, which is exploration, not proof."
-for _pid, _what, _sec in [
-    ("C03", "get_by_uuid versus reachability through the public containment attributes after every operation of random attach/detach/move histories over two IRs, and on IRs loaded twice from saved files", "5 C03"),
-    ("C04", "two-ended consistency, single parent, no duplicates, derived accessors and aggregate iterators after every operation of random histories over all entry points; default-argument sharing probes", "5 C03/C04"),
-    ("C05", "all block lookups at all four scopes against a fresh scan (exact at interval scope, envelope above) after random edit histories, boundary queries +-1", "5 C05"),
-    ("C06", "byte_intervals_on/at, sections_on/at and Section.address/size against a fresh scan after random edit histories", "5 C06"),
-    ("C10", "symbols_named and references against a comprehension over module.symbols after renames, payload switches and moves", "5 C10"),
-    ("C12", "one edit history replayed under different lookup schedules (none, every step, random, bursts around the rebuild threshold): final answers identical and equal to the model's", "5 C12"),
-    ("C13", "symbolic_expressions_at(_offset) at all scopes against a fresh scan, yielded order checked, after mapping-op histories", "5 C13"),
-    ("C16", "every method of the MutableSequence/MutableSet/MutableMapping interfaces in lock-step with built-in list/set/dict shadows, arguments from members, non-members and nodes owned elsewhere", "5 C16"),
-]:
-    CHECKS[_pid] = dict(category="exploration", text="Correspondence of the extracted Coq World model with the working tree and direct oracle: " + _what + ".",
-                        design=_sec, technique="differential execution of extracted Coq model + direct oracle (Coq invariant proofs in progress)",
-                        note=WORLD_NOTE + _INTERIM % _pid)
-
-CHECKS["C11"] = dict(
-    text="Theorems over Model/Cfg.v (cfg.py as coded: _edge_key, guarded add, keyed discard, the MutableSet mixins transcribed from CPython): every state reachable by any "
-         "sequence of operations is a duplicate-free set of (source, target, label) triples; each operation is exactly the mathematical set operation and fails exactly when "
-         "the built-in set would; membership/len/iteration agree with the set; add-present and discard-absent are identities; parallel edges differing in label coexist; "
-         "out_edges/in_edges and CfgNode.outgoing/incoming_edges are exactly the edges with that source/target. Correspondence: random histories on the working tree and the "
-         "extracted model with a shadow-set oracle, all adjacency views after every step.",
-    design="5 C11", technique="Coq proof (set refinement, invariant over all histories) + differential correspondence + shadow-set oracle",
-    note="networkx.MultiDiGraph is modelled by its abstract content (keyed edge list; new keys only need to be unused); iteration order is not modelled (pop takes the implementation's choice as witness). ")
-CHECKS["C19"] = dict(
-    text="Theorems over Model/ByteStore.v (constructor check, size/initialized_size setters as coded, block views): initialized_size = stored byte count; the constructor "
-         "rejects init > size and establishes the invariant; initialized_size pads with zeros or truncates; shrinking size truncates; stored bytes <= size after ANY sequence of "
-         "assignments (induction over histories) and the store always reloads to itself; block address/contents/contains_* characterised. Correspondence: the same constructor "
-         "arguments and assignment histories on the working tree and the extracted model, every observation compared; direct oracle = the property's sentences; real save/load.",
-    design="5 C19", technique="Coq proof (invariant by induction over assignment histories) + differential correspondence + direct oracle",
-    note="Domain: non-negative sizes/offsets, initialized_size assignments within the declared size (the property's 'such assignments'); direct assignment of a longer `contents` is outside the property. "
-         "bytearray semantics and the protobuf runtime are CPython's/protobuf's.")
-
+WORLD_NOTE = ("Model/World.v is a hand transcription of the ownership code (ListWrapper/SetWrapper subclasses, parent setters, UUID table, symbol indexes, "
+              "LazyIntervalTree, lookup helpers); theorems quantify over every state reachable by any history of operations inside the executable typing guard "
+              "WorldGuard.op_okb (the static types of the API + pairwise distinct UUIDs). intervaltree / sortedcontainers are modelled by their abstract behaviour. ")
 PROTO_NOTE = ("Model/Proto.v transcribes every _to_protobuf/_decode_protobuf pair at message level with the staged decode order and the kind checks of the per-IR UUID table; "
-              "the protobuf wire codec is the runtime's (trusted). ")
-for _pid, _txt, _sec in [
-    ("C01", "RT stream: random self-contained IRs built through the public API (boundary catalogue) saved and loaded: content equality on public attributes, deep_eq both ways, AuxData type names and decoded values with node identity, re-save equality; load(save(content)) on the extracted Coq model must agree.", "5 C01"),
-    ("C02", "W stream: bytes written by save parsed with classes built from /repo/proto and compared field by field with to_proto(content) of the Coq model and with a direct Python statement of the schema correspondence; R stream: messages built directly from the descriptors (one per declared enum constant + random closed messages) loaded and compared with from_proto(message) and with the direct statement.", "5 C02"),
-    ("C09", "Identity (`is`) of referents, entry points, CFG endpoints, expression symbols and AuxData UUID/Offset entries against get_by_uuid/containment on loaded files from both streams; every reference site of valid messages made dangling / ill-typed / wrong length one at a time: DeserializationError (ValueError for bad lengths), as the Coq reader model decides.", "5 C09"),
-    ("C17", "Fault enumeration: every single structural fault class at every site of valid messages (outcome class against the property's table and the Coq reader model; coherence oracle on anything load returns), every header variation, every truncation / bit flips / substitutions of valid files, acceptance of every saved file.", "5 C17"),
-    ("C18", "Pairs (save/load copy, one perturbation from a 74-kind catalogue covering every compared field of every class, neutral changes) judged by content equality and compared with ir_deq of Model/DeepEq.v in both directions and with its specification norm a = norm b; node-level reflexivity/symmetry/other-kind calls.", "5 C18"),
-]:
-    CHECKS[_pid] = dict(category="exploration" if _pid not in ("C17",) else "fault_enumeration", text=_txt, design=_sec,
-                        technique="differential execution of extracted Coq model + direct oracle (Coq proofs in progress)",
-                        note=PROTO_NOTE + _INTERIM % _pid)
+              "the protobuf wire codec (Parse(Serialize(m)) = m, range checks, presence) is the runtime's and is trusted; enum tables and schema are regenerated from /repo on every run. ")
+
+CHECKS["C03"] = dict(
+    text="Theorems (Props/C03.v, 9) for every reachable state: get_by_uuid ir u = Some n <-> n reachable from ir through containment and uuid n = u; None otherwise; no leakage between IRs; "
+         "the table has one entry per UUID; UUID-table deletions never hit a missing key (the only KeyErrors are the built-in ones); also along schedules with lookups interleaved. "
+         "Correspondence: random attach/detach/move histories over two IRs on the working tree and the extracted model, get_by_uuid for every pool UUID on every IR after every step; "
+         "direct oracle = reachability through public containment attributes; final states saved and loaded twice.",
+    design="5 C03", technique="Coq proof (invariant CacheInv by induction over operation histories) + differential correspondence + reachability oracle",
+    note=WORLD_NOTE + "Known finding (kept, not repaired): assigning into ir.modules a module that is already at another position of the same list (D4); the model refuses that call shape.")
+CHECKS["C04"] = dict(
+    text="Theorems (Props/C04.v, 19) for every reachable state: c in kids p <-> parent c = p; no duplicates; single parent; kinds layered; a move removes the node from its previous owner "
+         "(set add, parent attribute for all six relations, module-list insert/append); accessors are walks of the back-pointers and reach = {n | ir_of n = ir}; frame: nodes not named keep "
+         "their entry. Correspondence: histories over all entry points from members / non-members / nodes owned elsewhere; after every step parents, collections, accessors, aggregate "
+         "iterators; direct oracle = forest consistency by set comparison; default-argument sharing probes.",
+    design="5 C04", technique="Coq proof (invariant Forest by induction over operation histories, effect lemmas per operation) + differential correspondence + forest oracle",
+    note=WORLD_NOTE + "Aggregate iterators and constructor-argument copying are checked by the harness oracle (the model has no shared mutable defaults to get wrong). Known finding D4 as for C03.")
+CHECKS["C05"] = dict(
+    text="Theorems (Props/C05.v, 23) for every reachable state and every query: the four interval-scope lookups return exactly the blocks satisfying the on/at criterion, each once; nothing without "
+         "an address; code/data filters exact; section/module/IR scope: exact composition through byte_intervals_on plus the envelope (sound, complete inside the interval's extent, no duplicates). "
+         "Correspondence: edit histories with bursts, boundary queries +-1, steps 1-3, zero-sized and overlapping blocks; exact comparison with the model; direct oracle = fresh scan (envelope above interval scope).",
+    design="5 C05", technique="Coq proof (Sync invariant of the lazy trees + exactness of the tree search) + differential correspondence + fresh-scan oracle",
+    note=WORLD_NOTE)
+CHECKS["C06"] = dict(
+    text="Theorems (Props/C06.v, 18) for every reachable state: byte_intervals_on/at exact at section, module, IR scope; Section.address/size = (lowest address, highest end - lowest address), None unless "
+         "non-empty and all addressed; sections_on/at exact over the derived extents. Correspondence and fresh-scan oracle as C05 with interval-level edits weighted up (address to/from None, bursts).",
+    design="5 C06", technique="Coq proof (Sync invariant + extent characterisation) + differential correspondence + fresh-scan oracle",
+    note=WORLD_NOTE)
+CHECKS["C10"] = dict(
+    text="Theorems (Props/C10.v, 5) for every reachable state: symbols_named m s = exactly the symbols of m named s, each once (incl. the empty name); references b = exactly the symbols of b's current "
+         "module whose referent is b, empty without a module. Correspondence: renames, payload switches block/proxy/int incl. 0/None, symbol and block moves; direct oracle = comprehension over module.symbols.",
+    design="5 C10", technique="Coq proof (index invariant SymIx + FreshIx by induction over histories) + differential correspondence + scan oracle",
+    note=WORLD_NOTE)
+CHECKS["C12"] = dict(
+    text="Theorems (Props/C12.v, 10): for any two schedules (operations with arbitrary lookups interleaved) with the same operations, the final structures coincide and every lookup gives the same answer "
+         "(same set, no duplicates; equal lists/values where order is determined); lookups only ever change the tree component; SyncAll holds in every reachable state. "
+         "Correspondence: one history under several lookup placements incl. bursts around the rebuild threshold: answers identical across placements and equal to the model's and to a fresh scan.",
+    design="5 C12", technique="Coq proof (schedule independence: strip-congruence of every step + exactness of lookups) + differential correspondence across schedules",
+    note=WORLD_NOTE)
+CHECKS["C13"] = dict(
+    text="Theorems (Props/C13.v, 15) for every reachable state: the expression map iterates by strictly ascending offset; symbolic_expressions_at(_offset) on an interval = exactly one triple per stored "
+         "expression whose address/offset is in the query, ascending, nothing without an address; section/module/IR scope: sound, complete inside the extent, no duplicates. "
+         "Correspondence: mapping-op histories with address changes and moves; yielded order observed; fresh-scan oracle.",
+    design="5 C13", technique="Coq proof (sortedness invariant + exactness of the range scan) + differential correspondence + fresh-scan oracle",
+    note=WORLD_NOTE)
+CHECKS["C16"] = dict(
+    text="Theorems (Props/C16.v, 35) for reachable states: each of the ten set methods yields the Python set result (KeyError exactly when the built-in raises); every module-list method yields the list "
+         "result on the list from which a moved module was first removed (ValueError/IndexError exactly when the built-in raises); the expression map refines dict with iteration by offset; moved-not-duplicated; "
+         "a failed operation leaves the state (and the invariant) unchanged. Correspondence + lock-step shadows: every call also made on built-in list/set/dict, incl. mixins, operators with plain sets on either "
+         "side, explicit-step slices, foreign-kind and non-node arguments, out-of-range indices.",
+    design="5 C16", technique="Coq proof (refinement of built-in semantics by effect lemmas) + differential correspondence + built-in shadow oracle",
+    note=WORLD_NOTE + "Non-mutating operators return plain sets since the upstream fix 12e88c6; they are judged by the shadow oracle only. Known finding D4 (same-list item/slice assignment) is stated as C16_same_list_assignment_refused.")
+CHECKS["C11"] = dict(
+    text="Theorems (Props/C11.v, 21) over Model/Cfg.v (cfg.py as coded: _edge_key, guarded add, keyed discard, the MutableSet mixins transcribed from CPython): every state reachable by any "
+         "sequence of operations is a duplicate-free set of (source, target, label) triples; each operation is exactly the mathematical set operation and fails exactly when the built-in set would; "
+         "membership/len/iteration agree with the set; add-present and discard-absent are identities; parallel edges differing in label coexist; out_edges/in_edges and CfgNode.outgoing/incoming_edges are "
+         "exactly the edges with that source/target. Correspondence: random histories on the working tree and the extracted model with a shadow-set oracle, all adjacency views after every step.",
+    design="5 C11", technique="Coq proof (set refinement, invariant over all histories) + differential correspondence + shadow-set oracle",
+    note="networkx.MultiDiGraph is modelled by its abstract content (keyed edge list; new keys only need to be unused); iteration order is not modelled (pop takes the implementation's choice as witness).")
+CHECKS["C19"] = dict(
+    text="Theorems (Props/C19.v, 14) over Model/ByteStore.v: initialized_size = stored byte count; the constructor rejects init > size and establishes the invariant; initialized_size pads with zeros or truncates "
+         "and grows the size when beyond it; any size assignment leaves at most that many stored bytes; stored bytes <= size after ANY sequence of size / initialized_size assignments (any non-negative values), byte "
+         "edits and in-size contents assignments, and the store always reloads to itself; block address/contents/contains_* characterised. Correspondence: constructor arguments and assignment histories on the working "
+         "tree and the extracted model, every observation compared; direct oracle = the property's sentences; real save/load.",
+    design="5 C19", technique="Coq proof (invariant by induction over assignment histories) + differential correspondence + direct oracle",
+    note="Domain: non-negative sizes/offsets; a direct assignment of `contents` longer than the size is outside the property (the model still follows it, so a later size assignment is checked to truncate). "
+         "bytearray semantics and the protobuf runtime are CPython's/protobuf's.")
+CHECKS["C01"] = dict(
+    text="Theorems (Props/C01.v, 8): wf c -> from_proto (to_proto c) = Ok c for ALL contents (any size, every boundary value, None vs 0, label None vs all-false), through the file header, re-save identical, "
+         "deep_eq both ways; the recorded finding as C01_entry_point_in_later_module_refuted. Correspondence: random self-contained IRs built through the API (boundary catalogue) saved and loaded: content equality on "
+         "public attributes, deep_eq both ways, AuxData values with node identity, re-save equality; the model's load(save(content)) must agree.",
+    design="5 C01", technique="Coq proof (round trip through the staged reader, invariant of the UUID table) + differential correspondence + content oracle",
+    note=PROTO_NOTE + "Premise wf = the property's premise with entry points / referents / expression symbols resolvable in decode order and version = PROTOBUF_VERSION. Known finding D7: an entry point in a LATER module saves but does not load.")
+CHECKS["C02"] = dict(
+    text="Theorems (Props/C02.v, 22): header layout; per-message writer characterisation (has_address <-> address is not None, payload one-ofs, entry_point empty iff None, label present iff not None, vertices = all code "
+         "blocks and proxies, 16-byte UUIDs); reader: whoever wrote an accepted message, to_proto (loaded content) = the message up to set normalisation; obligations over the REGENERATED tables: every schema enum constant "
+         "has a Python member and vice versa (7 enums), versions agree, every schema field of every message is modelled (a field added to the schema breaks the obligation). Correspondence: W and R streams separately "
+         "against classes built from /repo/proto, plus direct Python statements of the field correspondence.",
+    design="5 C02", technique="Coq proof (field characterisation + finite-table obligations over regenerated schema/enum facts) + two separate differential streams",
+    note=PROTO_NOTE)
+CHECKS["C09"] = dict(
+    text="Theorems (Props/C09.v, 13) at UUID level: in an accepted message each UUID denotes one node, every reference names a node of the loaded IR of an admissible kind (per reference kind), dangling / ill-typed "
+         "references give DeserializationError, wrong lengths ValueError, a UUID defined twice is rejected. Identity (`is`) of referents, entry points, CFG endpoints, expression symbols and AuxData UUID/Offset entries "
+         "is OBSERVED on the implementation for every loaded file of both streams; every reference site made dangling / ill-typed / nil / wrong length one at a time.",
+    design="5 C09", technique="Coq proof of typed, closed resolution at UUID level + fault enumeration over every reference site + identity observation",
+    note=PROTO_NOTE + "PARTIAL: object identity is a fact about CPython allocation that a UUID-keyed model cannot express; that half of the property is exploration (observation on every generated file), not proof.")
+CHECKS["C17"] = dict(
+    text="Theorems (Props/C17.v, 27): whatever message the reader accepts is coherent (unique UUIDs, typed closed references, bytes <= size, valid enums) and can be saved and reloaded to itself; the reader's only "
+         "outcomes are Ok or ValueError / DeserializationError / TypeError (structural recursion: total); rejection class per fault; header gate; saved files accepted. Fault enumeration on the implementation: every "
+         "structural fault at every site (incl. one UUID on two or three nodes, a node with an ancestor's UUID), every header variation, every truncation / bit flips / substitutions of valid files, each outcome judged by the coherence oracle.",
+    design="5 C17", technique="Coq proof (accept => coherent, total reader, rejection classes) + fault enumeration with coherence oracle",
+    note=PROTO_NOTE + "PARTIAL at wire level: arbitrary BYTES are the protobuf parser's domain (outside the model; fault enumeration only); 'never hangs' is a 20 s alarm per input.")
+CHECKS["C18"] = dict(
+    text="Theorems (Props/C18.v, 26): deq_ok a -> deq_ok b -> (ir_deq a b = true <-> norm a = norm b) where norm is the content with every set-valued child list in canonical order and AuxData values erased; "
+         "reflexive, symmetric, order-insensitive, any difference of a compared field gives false, AuxData values ignored; per-level iff lemmas; the two extra clauses of deq_ok shown necessary by refutations. "
+         "Correspondence: save/load copies, one perturbation from a 74-kind catalogue, neutral changes (AuxData values, module order, insertion orders incl. parallel edges) against ir_deq both ways and the content oracle.",
+    design="5 C18", technique="Coq proof (deep_eq iff equality of normal forms) + differential correspondence over a full perturbation catalogue",
+    note=PROTO_NOTE + "Domain deq_ok: UUIDs distinct within an IR, references resolvable, AuxData keys distinct (dict keys), data blocks carry no decode mode; implied by wf + aux_keys_ok.")
 
 NOT_YET = {}
 
